@@ -215,6 +215,23 @@ func (s *Seq) guardScenario(r *simrt.Rand, extra map[string]int) string {
 	if v := s.subCheck(s.db, s.M, r.Uint64(), 3, "after-refused-create", true); v != nil {
 		s.fail(tag, "state-changed-by-refused-create:"+v.Sig, "after refused Create calls: %s", v.Msg)
 	}
+	// a write after the refused calls: a refused Create must not have touched the live
+	// settings (a cache that is no longer maintained would serve the old version later)
+	if lids := s.M.Lids(); len(lids) > 0 {
+		l := lids[r.Intn(len(lids))]
+		x := model.Clone(s.M.Objs[l])
+		x.Initialize(s.M.UUID[l])
+		x.F32, x.U32 = 7.5, 4242
+		if len(s.M.Conflicts(x, l)) == 0 {
+			o := model.Clone(x)
+			o.Initialize(s.M.UUID[l])
+			if err := s.db.InsertOrUpdate(o); err != nil {
+				s.fail("read", "legit-write-rejected", "guard: update of lid=%d after refused Create calls failed: %v", l, err)
+			}
+			s.modelPut(l, x)
+			s.stat("probe:update-after-refused-create")
+		}
+	}
 	// compatible Create is idempotent
 	if err := s.db.Create(rec0(), s.Cfg.Schema()); err != nil {
 		s.fail(tag, "compatible-create-failed", "Create with the same schema fails: %v", err)
